@@ -13,8 +13,7 @@ CFG = {
             "relaywire",
             100,
             1500
-        ]
-    ],
+        ], ["relayinactive", 3, 20]],
     "rule": "respwire: scripted connections to a real server (handlers driven one API call at a time; deadline expiry, cancel frames, graceful close, peer cut, duplicate id, undecodable request forced at chosen points) compared with Model/RespWire.v (run_respwire: frames per id, result of every API call, final connection state); many concurrent ids with free-running handlers (complete 1..n fragments / system error / partial then system error / overrun / blackhole) directly and through a real relay (RelayMaxTimeout 150 ms) judged by the frame-grammar oracle written from the property text, incl. exactly one timeout error frame and nothing after it. relaywire: the forced relay schedules of engine relaysched (see C09) judged by the same grammar oracle on the caller's connection and compared with Model/RelayItems.v (frame logs of both connections). Non-trivial = a call that produced frames; distinct by script/schedule.",
     "trusted_base": COMMON_TRUSTED + [
         "server side modelled by hand (tied by correspondence): inbound.go handleCallReq/dispatchInbound/InboundCallResponse, reqres.go reqResWriter, fragmenting_writer.go state machine, mex.go checkError/shutdown/inboundExpired/handleCancel/stopExchanges, connection.go SendSystemError/protocolError/close/checkExchanges (mex.shutdown and checkExchanges are one atomic action each)",
